@@ -366,18 +366,19 @@ def run(ctx):
     slice_hi = None
     off_len = None
     penv = {}
-    for x in walk_own(prs.node):
+    prx = _expand(prog, prs, local_only=True)   # an extracted strptime helper is read in place
+    for x in walk_own(prx):
         if isinstance(x, ast.Assign) and isinstance(x.targets[0], ast.Name):
             v_ = prog.const(x.value, prs.module, penv, el)
             from sa.pysrc import Unknown as _Unk
 
             if not isinstance(v_, _Unk):
                 penv[x.targets[0].id] = v_
-    for x in ast.walk(prs.node):
+    for x in ast.walk(prx):
         # the templates are whatever is handed to strptime as the format: a constant, or the variable of a loop over a constant
         if isinstance(x, ast.Call) and isinstance(x.func, ast.Attribute) and x.func.attr == "strptime" and len(x.args) == 2:
             t = x.args[1]
-            loops_ = [lp for lp in ast.walk(prs.node) if isinstance(lp, ast.For) and isinstance(lp.target, ast.Name) and isinstance(t, ast.Name)
+            loops_ = [lp for lp in ast.walk(prx) if isinstance(lp, ast.For) and isinstance(lp.target, ast.Name) and isinstance(t, ast.Name)
                       and lp.target.id == t.id and any(y is x for y in ast.walk(lp))]
             if loops_:
                 it = prog.const(loops_[0].iter, prs.module, penv, el)
@@ -441,7 +442,9 @@ def run(ctx):
         longest = max((_fmt_width(t) or 0) for t in templates)
         if longest != slice_hi:
             probs.append("reader slices %s characters but its longest template has width %s" % (slice_hi, longest))
-    if probs:
+    if probs and any(p_.endswith("not found") for p_ in probs):
+        ctx.error("written-pattern-readable", "; ".join(probs))
+    elif probs:
         ctx.violation("R18.3", "written-pattern-readable", "; ".join(probs), file=sdt.file, line=sdt.line)
     else:
         ctx.ok("R18.3", "written-pattern-readable", sample={"written": wfmt, "reader_templates": list(templates), "slice": slice_hi,
@@ -459,7 +462,7 @@ def run(ctx):
     from sa import paths as P_
     from sa.desugar import desugar as _desugar
 
-    dsd = _desugar(sdt.node)
+    dsd = _expand(prog, sdt, local_only=True, skip_names=("_get_or_add",))   # an extracted tagging helper is read in place
     pname = sdt.node.args.args[1].arg
     tagged_for, untagged_for, value_ok, unknown = set(), set(), True, []
     ALLP = {v[1].split(":")[1] if False else k for k, v in {}.items()}
